@@ -24,6 +24,7 @@ type symB struct{ t string }
 type symF struct {
 	bits int
 	t    string
+	w32  string // for a float64 obtained by widening a float32: the float32 term (exact round trip)
 }
 
 func isSymScalar(v value) bool {
@@ -174,7 +175,7 @@ func boolVal(t string) value {
 func newI(w int, signed bool, kind types.BasicKind, t string) symI {
 	return symI{w, signed, kind, cur.share(t, bvSort(w))}
 }
-func newF(bits int, t string) symF { return symF{bits, cur.share(t, fpSortFull(bits))} }
+func newF(bits int, t string) symF { return symF{bits: bits, t: cur.share(t, fpSortFull(bits))} }
 
 var kindWidth = map[types.BasicKind]int{types.Int: 64, types.Int64: 64, types.Int32: 32, types.Int16: 16, types.Int8: 8,
 	types.Uint: 64, types.Uint64: 64, types.Uint32: 32, types.Uint16: 16, types.Uint8: 8, types.Uintptr: 64,
@@ -251,9 +252,9 @@ func liftF(v value) (symF, bool) {
 	case symF:
 		return x, true
 	case float64:
-		return symF{64, fmt.Sprintf("((_ to_fp 11 53) #x%016x)", math.Float64bits(x))}, true
+		return symF{bits: 64, t: fmt.Sprintf("((_ to_fp 11 53) #x%016x)", math.Float64bits(x))}, true
 	case float32:
-		return symF{32, fmt.Sprintf("((_ to_fp 8 24) #x%08x)", math.Float32bits(x))}, true
+		return symF{bits: 32, t: fmt.Sprintf("((_ to_fp 8 24) #x%08x)", math.Float32bits(x))}, true
 	}
 	return symF{}, false
 }
@@ -574,7 +575,14 @@ func symConv(tdst types.Type, x value) (value, bool) {
 			if bits == v.bits {
 				return v, true
 			}
-			return newF(bits, fmt.Sprintf("((_ to_fp %s) RNE %s)", fpSort(bits), v.t)), true
+			if bits == 32 && v.w32 != "" {
+				return symF{bits: 32, t: v.w32}, true // float32(float64(x32)) == x32
+			}
+			r := newF(bits, fmt.Sprintf("((_ to_fp %s) RNE %s)", fpSort(bits), v.t))
+			if bits == 64 {
+				r.w32 = v.t
+			}
+			return r, true
 		}
 		if b.Info()&types.IsInteger != 0 {
 			// Go leaves out-of-range float->int implementation-defined: in range the result is
